@@ -65,6 +65,8 @@ theorem wsStr_append (a b : Str) (ha : WsStr a) (hb : WsStr b) : WsStr (a ++ b) 
     else is outside the property) -/
 def IndentWS (cfg : Cfg) : Prop := ∀ c ∈ cfg.indent, c = ' ' ∨ c = '\t'
 
+instance (cfg : Cfg) : Decidable (IndentWS cfg) := inferInstanceAs (Decidable (∀ c ∈ cfg.indent, c = ' ' ∨ c = '\t'))
+
 theorem rep_ws (n : Nat) (s : Str) (h : ∀ c ∈ s, c = ' ' ∨ c = '\t') : WsStr (rep n s) := by
   induction n with
   | zero => intro c hc; simp [rep] at hc
@@ -196,8 +198,6 @@ theorem strict_dataTok (s : Str) (h : s ≠ [] → PlainData s) : StrictL (dataT
   · have hne : s ≠ [] := by simpa using he
     have := plainData_tok s (h hne)
     simp [he, StrictL, FNode.Strict, this.1, this.2, isTextLike]
-
-theorem strict_textLike_aux : True := trivial
 
 mutual
 theorem strict_textLike : ∀ u : FNode, u.Strict → u.TextLike
